@@ -38,12 +38,16 @@ func (vc *VC) ghostVal(env *Env, name string) (Val, bool) {
 }
 
 func (vc *VC) resolveGhostType(env *Env, g *GhostVar) types.Type {
-	if t := vc.resolveType(env, g.Type); t != nil {
-		return t
-	}
-	// resolve in the package that declares the ghost (directory of the contract file)
-	for _, p := range vc.Eng.Pkgs {
-		_ = p
+	return vc.resolveTypeAt(env, g.File, g.Type)
+}
+
+// resolveTypeAt resolves a type expression written in the contract file
+// `file`: first in the scope of the function under evaluation, then in the
+// package whose directory holds the contract file (any of its file scopes).
+func (vc *VC) resolveTypeAt(env *Env, file, text string) types.Type {
+	gd := file
+	if i := strings.LastIndex(gd, "/"); i >= 0 {
+		gd = gd[:i]
 	}
 	for tp, files := range vc.Eng.pkgFiles {
 		if len(files) == 0 {
@@ -53,18 +57,16 @@ func (vc *VC) resolveGhostType(env *Env, g *GhostVar) types.Type {
 		if i := strings.LastIndex(dir, "/"); i >= 0 {
 			dir = dir[:i]
 		}
-		gd := g.File
-		if i := strings.LastIndex(gd, "/"); i >= 0 {
-			gd = gd[:i]
-		}
 		if dir != gd {
 			continue
 		}
-		if tv, err := types.Eval(vc.Eng.Prog.Fset, tp, files[0].End()-1, g.Type); err == nil {
-			return tv.Type
+		for _, f := range files {
+			if tv, err := types.Eval(vc.Eng.Prog.Fset, tp, f.End()-1, text); err == nil && tv.IsType() {
+				return tv.Type
+			}
 		}
 	}
-	return nil
+	return vc.resolveType(env, text)
 }
 
 // ifaceKey names the contract of an interface method: pkg.Type.Method.
